@@ -314,11 +314,14 @@ T("walrus_rhs", '''
 def f(x):
     y = (z := x * 2) + 1
     w: int = (v := y + 1) * 2
-    return (y, z, w, v)
+    p, q = (u := w + 1), x
+    [m, *n] = [(k := u - 1), k + 1, k + 2]
+    return (y, z, w, v, p, q, u, m, n, k)
 
 def drive(a, b, c, d):
     return f(a)
-''', vars=["z", "v"], forms=["assignment expression inside the right-hand side of an assignment"],
+''', vars=["z", "v", "u", "k", "p"], forms=["assignment expression inside the right-hand side of a plain / annotated / "
+                                       "tuple / starred assignment"],
   defect="walrus_rhs", ctx=["x"])
 
 T("imports", '''
@@ -420,6 +423,23 @@ def drive(a, b, c, d):
     r = f(a)
     return (r, G, H)
 ''', vars=["y", "x"], forms=["global statement", "global read", "builtin read"], ctx=["x"])
+
+T("globals_falsy", '''
+NOTHING = None
+ZERO = 0
+EMPTY = ""
+FLAG = False
+
+def f(x):
+    r = x if NOTHING is None else -x
+    s = r + ZERO + len(EMPTY)
+    t = s if not FLAG else 0
+    return (r, s, t, NOTHING, EMPTY)
+
+def drive(a, b, c, d):
+    return f(a)
+''', vars=["r", "s", "t"], forms=["reads of globals whose values are None / 0 / '' / False"],
+  ctx=["x"])
 
 T("params", '''
 def f(p, /, q, r=7, *rest, k, kd=11, **kw):
